@@ -460,6 +460,36 @@ theorem lua_roundtrip_counterexample : ¬ C16_lua_roundtrip := by
 theorem lua_number_becomes_integer (i : Int) : luaToResp (.num i) = .int i := by
   simp [luaToResp]
 
+/-- a Lua float of ANY value is answered as an integer reply inside `i64` (`n as i64`: truncation toward zero,
+    saturation, NaN → 0) — `LuaVal.num i` is the special case of an integral value below 2^53 -/
+theorem lua_float_reply_in_i64 (bits : Nat) :
+    -9223372036854775808 ≤ f64ToI64 bits ∧ f64ToI64 bits ≤ 9223372036854775807 := by
+  unfold f64ToI64
+  generalize f64Mag ((bits / 2 ^ 52) % 2048) (bits % 2 ^ 52) = mag
+  split
+  · split
+    · omega
+    · split <;> omega
+  · split
+    · omega
+    · split <;> split <;> omega
+
+/-- pinned values of the cast: fraction dropped toward zero on both sides, ±0, the largest double below
+    2^63, 2^63 itself and beyond (saturation), infinities, NaN, the smallest subnormal -/
+theorem lua_float_reply_cases :
+    f64ToI64 0x400D99999999999A = 3 ∧ f64ToI64 0xC00D99999999999A = -3 ∧      -- ±3.7
+    f64ToI64 0x3FE0000000000000 = 0 ∧ f64ToI64 0xBFEFFFFFFFFFFFFF = 0 ∧      -- 0.5, −0.99…
+    f64ToI64 0 = 0 ∧ f64ToI64 0x8000000000000000 = 0 ∧                          -- ±0
+    f64ToI64 0x4014000000000000 = 5 ∧                                           -- 10/2
+    f64ToI64 0x43DFFFFFFFFFFFFF = 9223372036854774784 ∧                         -- largest double < 2^63
+    f64ToI64 0x43E0000000000000 = 9223372036854775807 ∧                         -- 2^63 saturates
+    f64ToI64 0xC3E0000000000000 = -9223372036854775808 ∧                        -- −2^63 exactly
+    f64ToI64 0xC3E0000000000001 = -9223372036854775808 ∧
+    f64ToI64 0x7FF0000000000000 = 9223372036854775807 ∧ f64ToI64 0xFFF0000000000000 = -9223372036854775808 ∧
+    f64ToI64 0x7FF8000000000000 = 0 ∧ f64ToI64 1 = 0 ∧
+    f64ToI64 0x4340000000000000 = 9007199254740992 := by
+  decide +kernel
+
 /-! ## 6. option order (SET, EXPIRE, PEXPIRE, GETEX) -/
 
 /-- lift a body result into a parse result -/
@@ -736,12 +766,12 @@ theorem run_of {s : Spec} {args : List Bytes} (ha : s.arity.ok args.length = tru
   cases s.body.run args <;> rfl
 
 def luaSetSpec : Spec := customSpec "SET" (.atLeast 2) (reqAtLeast "SET" 2) CB.luaSet
-def luaExpireSpec : Spec := customSpec "EXPIRE" (.exact 2) (req "EXPIRE" 2) (CB.plain Bodies.luaExpire)
+def luaExpireSpec : Spec := customSpec "EXPIRE" (.exact 2) (req "EXPIRE" 2) CB.luaExpire
 def lmoveSpec : Spec := customSpec "LMOVE" (.exact 4) (req "LMOVE" 4) CB.lmove
 def luaZaddSpec : Spec := customSpec "ZADD" (.atLeast 3) (s2b "ZADD requires key and score-member pairs")
   (CB.zadd { kind := .flt, onErr := some .luaZaddScore })
 def zaddSpec : Spec := customSpec "ZADD" (.atLeast 3) (s2b "ZADD requires key and score-member pairs") (CB.zadd aFlt)
-def luaZrangeSpec : Spec := customSpec "ZRANGE" (.exact 3) (req "ZRANGE" 3) (CB.plain Bodies.luaZrange)
+def luaZrangeSpec : Spec := customSpec "ZRANGE" (.exact 3) (req "ZRANGE" 3) CB.luaZrange
 def zrangeSpec : Spec := customSpec "ZRANGE" (.between 3 4) (s2b "ZRANGE requires 3 or 4 arguments") (CB.zrange (s2b "ZRange"))
 
 theorem find_lua_set : findEntry luaTable (s2b "SET") = some (.cmd luaSetSpec) := by rfl
